@@ -1,9 +1,50 @@
 """B1 binding of the discrete-time simulators to DiscreteEpi.tla."""
 from . import kernel, observe
-from .scripted import explore, Incomplete, run_scripted
+from .scripted import explore, Incomplete, run_scripted, Unmodelled
 from .netepi import build_graph, pair_list
 
 SG = None   # (w, st) -> [(frozenset(new), num, den, st2)]
+SETTLE_RUNS = 30000
+SETTLE_P = 1e-9
+
+
+def settle_law(outcome_of_seed, expected, what, nruns=SETTLE_RUNS):
+    """The scripted random source cannot follow this implementation (it transforms its uniform draws in a way that is
+    no finite decision tree, e.g. log(1-U)): the law is decided with the REAL random source instead - `nruns` seeded
+    runs, outcomes compared with the specification's distribution `expected` (outcome -> probability): an outcome of
+    probability 0 is a violation outright, the frequencies are compared by a G-test (categories with fewer than 10
+    expected runs pooled), rejected below 1e-9.  Returns a list of problems."""
+    import random
+    import numpy as np
+    from .master import g_test
+    obs = {}
+    st_r, st_n = random.getstate(), np.random.get_state()
+    try:
+        for k in range(nruns):
+            random.seed(7919 * k + 13)
+            np.random.seed(k)
+            try:
+                o = outcome_of_seed()
+            except Exception as e:
+                return [{"kind": "exception:%s" % type(e).__name__, "detail": "%s raised %r (real random source, seed %d)" % (what, e, 7919 * k + 13)}]
+            obs[o] = obs.get(o, 0) + 1
+    finally:
+        random.setstate(st_r)
+        np.random.set_state(st_n)
+    for o in obs:
+        if expected.get(o, 0.0) <= 1e-15:
+            return [{"kind": "impossible-step", "detail": "%s: outcome %r observed %d times in %d seeded runs, the chain gives it probability 0" % (what, o, obs[o], nruns)}]
+    pooled_e, pooled_o = {}, {}
+    for o, e in expected.items():
+        key = o if e * nruns >= 10 else "__rest__"
+        pooled_e[key] = pooled_e.get(key, 0.0) + e
+        pooled_o[key] = pooled_o.get(key, 0) + obs.get(o, 0)
+    pv, detail = g_test(pooled_o, pooled_e, nruns)
+    if pv < SETTLE_P:
+        worst = max(pooled_e, key=lambda k_: abs(pooled_o.get(k_, 0) - pooled_e[k_] * nruns) / (pooled_e[k_] * nruns) ** 0.5)
+        return [{"kind": "probability", "detail": "%s: %d seeded runs with the real random source disagree with the chain (%s, p=%.2g); e.g. outcome %r: %d runs, expected %.1f"
+                 % (what, nruns, detail, pv, worst, pooled_o.get(worst, 0), pooled_e[worst] * nruns)}]
+    return []
 
 
 def kernel_compare(recs, st0, succ, horizon, tol=1e-9):
@@ -83,6 +124,13 @@ def run_scenario(task):
 
     problems = []
     recs = []
+    if task.get("primed"):
+        from .common import prime_same_object
+        try:
+            prime_same_object(G, lambda g_: f(g_, p, initial_infecteds=list(I0), return_full_data=full, **kw))
+        except Exception as e:
+            return {"problems": [{"kind": "exception:%s" % type(e).__name__, "script": None,
+                                  "detail": "%s raised %r on a graph object that is afterwards edited in place" % (sim, e)}], "leaves": 0, "events": 0}
 
     def steps_from(l):
         """sequence of newly infected sets per generation (API-observable)"""
@@ -115,14 +163,38 @@ def run_scenario(task):
         recs.append({"prob": None, "events": ev, "leaf": l})
         return False
 
-    leaves = explore(fn, on_leaf=on_leaf, max_leaves=task.get("max_leaves", 60000))
+    def succ(st):
+        return SG.get((tuple(w), st), [])
+
+    try:
+        leaves = explore(fn, on_leaf=on_leaf, max_leaves=task.get("max_leaves", 60000))
+    except Unmodelled as e:
+        # no finite decision tree: decide the law of the whole run with the real random source
+        class _L(object):
+            pass
+        spec = {}
+
+        def push_(st, prob, seq, depth):
+            out = succ(st)
+            if not out or (horizon is not None and depth >= horizon):
+                spec[tuple(seq)] = spec.get(tuple(seq), 0.0) + prob
+                return
+            for (new, num, den, st2) in out:
+                push_(st2, prob * num / den, seq + [new if full else len(new)], depth + 1)
+        push_(st0, 1.0, [], 0)
+
+        def one():
+            l = _L()
+            l.result = fn()
+            return tuple(steps_from(l)[0])
+        pr = settle_law(one, spec, "%s (newly infected per step, %s)" % (sim, "node sets" if full else "counts"))
+        for p_ in pr:
+            p_.setdefault("script", None)
+        return {"problems": pr, "leaves": SETTLE_RUNS, "events": 1, "settled": "unmodelled: %s" % e}
     if isinstance(leaves, Incomplete) or not recs:
         return {"problems": problems, "leaves": len(leaves), "events": 0}
     for r in recs:
         r["prob"] = r["leaf"].prob
-
-    def succ(st):
-        return SG.get((tuple(w), st), [])
 
     def succ_counts(st_set):
         raise NotImplementedError
@@ -180,10 +252,29 @@ def percolate_scenario(task):
     edges = [e for e, x in zip(pair_list(n), w) if x]
     m = len(edges)
 
+    if task.get("primed"):
+        from .common import prime_same_object
+        prime_same_object(G, lambda g_: EoN.percolate_network(g_, p))
+
     def fn():
         H = EoN.percolate_network(G, p)
         return (sorted(H.nodes()), sorted(tuple(sorted(e)) for e in H.edges()), H.is_directed())
-    leaves = explore(fn)
+    try:
+        leaves = explore(fn)
+    except Unmodelled as e:
+        import itertools
+        expected = {}
+        for k in range(m + 1):
+            for K in itertools.combinations(sorted(tuple(sorted(e_)) for e_ in edges), k):
+                expected[K] = task["perc"][k]          # TLC-emitted probability of one particular set of k kept edges out of m
+
+        def one():
+            nodes, kept, directed = fn()
+            if nodes != list(range(1, n + 1)) or directed:
+                return ("nodes", tuple(nodes), directed)
+            return tuple(kept)
+        pr = settle_law(one, expected, "percolate_network (set of kept edges)")
+        return {"problems": [dict(q, kind="percolate-" + q["kind"]) for q in pr], "dist": None, "m": m, "leaves": SETTLE_RUNS, "settled": "unmodelled: %s" % e}
     problems = []
     seen = {}
     for l in leaves:
